@@ -233,6 +233,9 @@ def run_proof(prop: str, proof_modules: list[str], theorems: list[str], thorough
     """Build the proof modules, audit axioms of the named theorems, grep forbidden tokens."""
     res = {"modules": proof_modules, "theorems": {}, "ok": True, "problems": [], "checker_cmd": ""}
     t0 = time.time()
+    if prop in gen_props():
+        # regenerate lean/PyodaGen/<prop>.lean from the current source and check the agreement theorems first
+        apply_gen_tie(prop, res)
     targets = proof_modules + list(drivers)
     cmd = ["lake", "build"] + targets
     res["checker_cmd"] = "cd lean && " + " ".join(cmd) + f" && lake env lean PyodaProofs/Audit/{prop}.lean"
@@ -279,6 +282,183 @@ def run_proof(prop: str, proof_modules: list[str], theorems: list[str], thorough
             res["problems"].append({"kind": "leanchecker", "detail": res["leanchecker"]})
     res["wall_s"] = round(time.time() - t0, 2)
     return res
+
+
+# --------------------------------------------------------------------------------------
+# generated-definition tie (tools/py2lean.py): Lean definitions regenerated from the Python source of
+# REPO on every run + kernel-checked agreement theorems with the hand-written model
+# --------------------------------------------------------------------------------------
+
+GEN_TARGETS = VERIF / "tools" / "py2lean_targets.py"
+
+
+def gen_targets() -> dict:
+    """The literal TARGETS dictionary of tools/py2lean_targets.py (read with ast.literal_eval, not imported)."""
+    import ast as _ast
+    try:
+        for st in _ast.parse(GEN_TARGETS.read_text()).body:
+            if isinstance(st, _ast.Assign) and getattr(st.targets[0], "id", "") == "TARGETS":
+                return _ast.literal_eval(st.value)
+    except OSError:
+        pass
+    return {}
+
+
+def gen_props() -> set:
+    """Properties that have a translator target list (their own or, via "same_as", another property's)."""
+    return set(gen_targets())
+
+
+def _enclosing_decl(path: Path, line: int) -> str:
+    """Name of the theorem/def that contains `line` of a Lean file."""
+    try:
+        lines = path.read_text().split("\n")
+    except OSError:
+        return "?"
+    ns = ""
+    for ln in lines:
+        m = re.match(r"namespace\s+(\S+)", ln)
+        if m:
+            ns = m.group(1)
+            break
+    for i in range(min(line, len(lines)) - 1, -1, -1):
+        m = re.match(r"\s*(?:private\s+)?(?:theorem|def|lemma|example)\s+(\S+)", lines[i])
+        if m:
+            return (ns + "." if ns else "") + m.group(1)
+    return "?"
+
+
+def _lean_errors(output: str, files: dict) -> list:
+    """[(declaration, first line of the message)] for every `file:line:col: error` of a Lean/lake output.
+    files: path suffix as printed by Lean -> Path on disk."""
+    out, seen = [], set()
+    # lean prints `file:line:col: error: msg` (or `error(kind): msg`), lake relays it as `error: file:line:col: msg`
+    pat = r"^(?:(?P<lake>error: )(?P<f1>\S+?\.lean):(?P<l1>\d+):\d+: (?P<m1>.*)|(?P<f2>\S+?\.lean):(?P<l2>\d+):\d+: error[^:]*: (?P<m2>.*))$"
+    for m in re.finditer(pat, output, flags=re.M):
+        f, line, msg = (m.group("f1") or m.group("f2")), int(m.group("l1") or m.group("l2")), (m.group("m1") or m.group("m2") or "")
+        path = next((p for suffix, p in files.items() if f.endswith(suffix)), None)
+        decl = _enclosing_decl(path, line) if path else f"{f}:{line}"
+        if decl not in seen:
+            seen.add(decl)
+            out.append((decl, f"{f}:{line}: {msg[:200]}"))
+    return out
+
+
+def gen_tie(prop: str) -> dict:
+    """Regenerate lean/PyodaGen/<prop>.lean from REPO's current source with tools/py2lean.py and check the
+    agreement theorems PyodaProofs.GenAgree<prop> against it.
+    REPO = /repo (the default): the generated file in the tree is rewritten when its content changed and
+    `lake build PyodaProofs.GenAgree<prop>` runs.  REPO = a scratch worktree (PYODA_REPO): the generated file
+    goes to a temporary directory that is put in front of LEAN_PATH, so the committed snapshot, the lake build
+    directory and concurrent checks of the clean tree are not disturbed."""
+    import fcntl
+    import shutil
+    import tempfile
+    t0 = time.time()
+    in_tree = REPO.resolve() == Path("/repo").resolve()
+    tg = gen_targets()
+    asked = prop
+    prop = tg.get(prop, {}).get("same_as", prop)  # a property may share another property's generated file
+    agree_mod = f"PyodaProofs.GenAgree{prop}"
+    agree_file = LEAN / "PyodaProofs" / f"GenAgree{prop}.lean"
+    res = {"ok": True, "functions": [], "problems": [], "generator_cmd": "", "source_files": {}, "repo": str(REPO),
+           "mode": "in-tree" if in_tree else "scratch", "agreement_module": agree_mod, "broken_theorems": []}
+    if asked != prop:
+        res["shared_with"] = prop
+    if prop not in tg:
+        res["skipped"] = "no translator targets for this property"
+        return res
+    tmp = None
+    lock = open(LEAN / ".gen_tie.lock", "w")
+    try:
+        if in_tree:
+            fcntl.flock(lock, fcntl.LOCK_EX)
+            out_dir = LEAN / "PyodaGen"
+        else:
+            tmp = Path(tempfile.mkdtemp(prefix=f"gentie_{prop}_"))
+            out_dir = tmp / "PyodaGen"
+        cmd = [sys.executable, str(VERIF / "tools" / "py2lean.py"), "--repo", str(REPO), "--prop", prop, "--out", str(out_dir), "--json"]
+        res["generator_cmd"] = " ".join(cmd)
+        p = subprocess.run(cmd, capture_output=True, text=True, timeout=600)
+        try:
+            info = json.loads(p.stdout)[0]
+        except Exception:  # noqa: BLE001
+            raise InfraError(f"py2lean produced no summary (exit {p.returncode}): {(p.stdout + p.stderr)[-600:]}")
+        res["functions"] = [f["lean"] for f in info.get("functions", [])]
+        res["source_files"] = info.get("source_files", {})
+        res["generated_sha256"] = info.get("sha256")
+        res["rewritten"] = bool(info.get("written"))
+        gen_file = out_dir / f"{prop}.lean"
+        if info.get("errors"):
+            res["ok"] = False
+            for e in info["errors"]:
+                thm = f"Pyoda.GenAgree.{prop}.gen_{str(e.get('function')).replace('.', '_')}_eq"
+                res["broken_theorems"].append(thm)
+                res["problems"].append({"kind": "gen-tie", "stage": "translate", "theorem": thm,
+                                        "detail": e.get("error", "")[:400],
+                                        "note": "the source no longer fits the translated subset: the generated definition cannot be rebuilt, so its agreement theorem has nothing to check"})
+            return res
+        files = {f"PyodaProofs/GenAgree{prop}.lean": agree_file, f"PyodaGen/{prop}.lean": gen_file}
+        if in_tree:
+            bcmd = ["lake", "build", agree_mod]
+            res["build_cmd"] = "cd lean && " + " ".join(bcmd)
+            b = subprocess.run(bcmd, cwd=LEAN, capture_output=True, text=True, timeout=3600)
+            output, failed = b.stdout + b.stderr, b.returncode != 0
+        else:
+            env = dict(os.environ)
+            lp = subprocess.run(["lake", "env", "printenv", "LEAN_PATH"], cwd=LEAN, capture_output=True, text=True, timeout=600)
+            if lp.returncode != 0:
+                raise InfraError("lake env printenv LEAN_PATH failed: " + lp.stderr[-300:])
+            base_path = lp.stdout.strip()
+            pin = _pin_prefix()
+            # 1. compile the regenerated definitions in the scratch root; 2. check the agreement file with the scratch
+            #    root in front of the search path (PyodaGen.<prop> resolves to the scratch .olean, everything else to lake's)
+            env["LEAN_PATH"] = base_path
+            built = LEAN / ".lake" / "build" / "lib" / "lean" / "PyodaGen"
+            if built.is_dir():  # the scratch root shadows the whole PyodaGen library: link its other modules in
+                for f in built.iterdir():
+                    if f.stem.split(".")[0] != prop and f.suffix in (".olean", ".ilean"):
+                        os.symlink(f, out_dir / f.name)
+            c1 = pin + ["lean", "--root=" + str(tmp), "-o", str(out_dir / f"{prop}.olean"), "-i", str(out_dir / f"{prop}.ilean"), str(gen_file)]
+            res["build_cmd"] = f"(scratch root {tmp}) lean -o PyodaGen/{prop}.olean PyodaGen/{prop}.lean ; LEAN_PATH=<scratch>:<lake> lean PyodaProofs/GenAgree{prop}.lean"
+            b = subprocess.run(c1, cwd=tmp, env=env, capture_output=True, text=True, timeout=3600)
+            output, failed = b.stdout + b.stderr, b.returncode != 0
+            if not failed:
+                env["LEAN_PATH"] = str(tmp) + ":" + base_path
+                b = subprocess.run(pin + ["lean", str(agree_file.relative_to(LEAN))], cwd=LEAN, env=env, capture_output=True, text=True, timeout=3600)
+                output, failed = b.stdout + b.stderr, b.returncode != 0
+        if failed:
+            res["ok"] = False
+            errs = _lean_errors(output, files)
+            if not errs:
+                raise InfraError(f"gen_tie({prop}): Lean failed without a located error: {output[-600:]}")
+            for decl, msg in errs[:40]:
+                res["broken_theorems"].append(decl)
+                res["problems"].append({"kind": "gen-tie", "stage": "agreement", "theorem": decl, "detail": msg,
+                                        "note": "the definition regenerated from the current Python source no longer agrees with the hand-written model (kernel check of the agreement theorem fails)"})
+        return res
+    finally:
+        res["wall_s"] = round(time.time() - t0, 2)
+        try:
+            fcntl.flock(lock, fcntl.LOCK_UN)
+        except OSError:
+            pass
+        lock.close()
+        if tmp is not None:
+            shutil.rmtree(tmp, ignore_errors=True)
+
+
+def apply_gen_tie(prop: str, proof: dict) -> None:
+    """Run the tie and fold its result into a proof-result dictionary (a failed tie is a failed proof obligation)."""
+    tie = gen_tie(prop)
+    proof["gen_tie"] = tie
+    if not tie["ok"]:
+        proof["ok"] = False
+        proof.setdefault("problems", []).extend(tie["problems"])
+        if isinstance(proof.get("theorems"), dict):
+            for t in tie["broken_theorems"]:
+                proof["theorems"].pop(t, None)  # no longer counted as checked (matters under --no-proof)
+        print(f"gen-tie [{prop}] BROKEN ({tie['mode']}, source {tie['repo']}): " + ", ".join(sorted({p['theorem'] for p in tie['problems']})[:12]))
 
 
 # --------------------------------------------------------------------------------------
@@ -502,6 +682,9 @@ def write_replay(prop: str, seed: int, n: int, payload: dict) -> Path:
 
 def finish(ctx: Ctx, proof: dict, meta: dict, boot: dict) -> int:
     """Compute the verdict, write evidence, print VIOLATION / KNOWN-FINDING lines; returns exit code."""
+    if os.environ.get("PYODA_GEN_TIE") == "1" and "gen_tie" not in proof and ctx.prop in gen_props():
+        # seeded-change runs use --no-proof against a patched worktree and must still exercise the tie
+        apply_gen_tie(ctx.prop, proof)
     known = load_findings(ctx.prop)
     new_failures, known_hits = [], {}
     for f in ctx.failures:
@@ -587,6 +770,8 @@ def finish(ctx: Ctx, proof: dict, meta: dict, boot: dict) -> int:
         "wall_s": round(time.time() - ctx.t0, 2),
         "violations": sum(1 for ln in lines if ln.startswith("VIOLATION")),
     }
+    if proof.get("gen_tie") is not None:
+        ev["coverage"]["gen_tie"] = proof["gen_tie"]
     EVIDENCE.mkdir(exist_ok=True)
     (EVIDENCE / f"{ctx.prop}.json").write_text(json.dumps(ev, indent=1, default=str))
     for ln in lines:
